@@ -60,13 +60,27 @@ func (s *SliceRun) Naming() string { return (*s)[0].Alias }
 // a runner that is also a component-factory post-processor (the sanctioned way for a component to get hold of the factory)
 type RunFPP struct {
 	zoo.Core
-	factory container.Factory
+	factory     container.Factory
+	Contributes *Contributed // an eager component whose definition this processor adds programmatically
 }
+
+// Contributed is an ordinary eager component that nobody registered as a singleton: a factory post-processor adds
+// its definition through the public DefinitionRegistry. Nobody depends on it.
+type Contributed struct{ zoo.Core }
 
 func (r *RunFPP) Run() error { return run(r.B) }
 func (r *RunFPP) PostProcessComponentFactory(f container.Factory) error {
 	r.factory = f
+	if r.Contributes != nil {
+		f.GetDefinitionRegistry().GetMetaOrRegister(r.Contributes.B.Alias, r.Contributes)
+	}
 	return nil
+}
+
+// RunCollector collects everything that has a Run method through the func tag (any result): collecting is not calling.
+type RunCollector struct {
+	zoo.Core
+	Rs []definition.ApplicationRunner `func:"Run,returns=*"`
 }
 
 // a runner that wires the application itself (container.Factory is implemented by the App alone) under a name that
@@ -174,6 +188,7 @@ func TestRunners(t *testing.T) {
 		}
 		ids := make([]int, nr)
 		initFaults := 0
+		var contributed *Contributed
 		decorated := map[string]*zoo.Beh{}
 		for i := range specs {
 			specs[i].Class = rapid.IntRange(0, 8).Draw(t, "class")
@@ -209,7 +224,14 @@ func TestRunners(t *testing.T) {
 					initFaults--
 				}
 			case 6:
-				c = &RunFPP{Core: zoo.Core{B: b}}
+				fpp := &RunFPP{Core: zoo.Core{B: b}}
+				if contributed == nil && rapid.Bool().Draw(t, "contributes") {
+					cb := &zoo.Beh{ID: -50, Alias: "contributed-component", Mask: "m0", Log: in.Log}
+					contributed = &Contributed{zoo.Core{B: cb}}
+					cb.Self = contributed
+					fpp.Contributes = contributed
+				}
+				c = fpp
 			case 8:
 				b.Alias = fmt.Sprintf("a-runner-%d", i) // sorts in front of github.com/go-kid/ioc/app/App
 				c = &RunAppRef{Core: zoo.Core{B: b}}
@@ -243,6 +265,12 @@ func TestRunners(t *testing.T) {
 		}
 		if len(decorated) > 0 {
 			in.Extra = append(in.Extra, &runDecoPP{names: decorated})
+		}
+		if rapid.IntRange(0, 4).Draw(t, "collector") == 0 {
+			cb := &zoo.Beh{ID: -51, Alias: "aa-run-collector", Mask: "m0", Log: in.Log}
+			col := &RunCollector{Core: zoo.Core{B: cb}}
+			cb.Self = col
+			in.Extra = append(in.Extra, col)
 		}
 		in.Extra = rapid.Permutation(in.Extra).Draw(t, "extraorder")
 		nobs := rapid.IntRange(0, 2).Draw(t, "nobs")
@@ -321,6 +349,9 @@ func TestRunners(t *testing.T) {
 		if preFailure {
 			kit.Rec.Case(desc, false, "start-failed-before-runners")
 			return
+		}
+		if contributed != nil && in.Out.Err == nil && contributed.B.InitCalls != 1 {
+			t.Fatalf("C13: Run returned nil but the eager component whose definition a factory post-processor contributed was initialised %d times (runners: %v)\n%s", contributed.B.InitCalls, seq, desc)
 		}
 		// every eager scenario node initialised before the first runner
 		if firstRun >= 0 {
